@@ -8,7 +8,7 @@ from . import c01, campaign, engine, fmt
 
 LEVEL = 'proof'
 PID = 'C03'
-WEIGHTS = {'rect': 0.2, 'oct': 0.25, 'share': 0.1, 'selfop': 0.05, 'lat': 0.1, 'gp': 0.1, 'degen': 0.1, 'ulp': 0.1, 'boxes': 0.05, 'straddle': 0.05, 'fan': 0.03, 'sliver': 0.03, 'near64': 0.04}
+WEIGHTS = {'rect': 0.2, 'oct': 0.25, 'share': 0.1, 'selfop': 0.05, 'lat': 0.1, 'gp': 0.1, 'degen': 0.1, 'ulp': 0.1, 'boxes': 0.05, 'straddle': 0.05, 'fan': 0.03, 'sliver': 0.03, 'near64': 0.04, 'vtj': 0.04}
 
 
 def big_case(nrect, op, prec=64):
